@@ -114,3 +114,7 @@ func VerifC07_PartitionDeploymentTargetSuffices() {
 	verifrt.Assert(ctx.IsBatchReady() == nil, "C07.partdeploy.targetSufficesForReadiness")
 	verifrt.Cover("done")
 }
+
+// C11: readiness is judged against the pods the batch really calls for: the batch context's targets equal the
+// reference computed from the plan (obligations of the C01 batch-context harness of this workload kind).
+func VerifC11_PartitionDeploymentReadinessTarget() { VerifC01_PartitionDeploymentBatch() }
